@@ -261,8 +261,6 @@ def persistent_state(ctx: Ctx, rule: str, funcs: List[Func], what: str):
     depends on nothing else (no file contents, no object state).  Looked at: module-level containers, containers bound in
     a class body (one object for all instances), memoising decorators.  A table that is only written (never consulted by
     these functions) is not state."""
-    from .effects import Effects
-    E = Effects(ctx.repo)
     seen: Set[str] = set()
     todo = []
     for f0 in funcs:
@@ -270,6 +268,22 @@ def persistent_state(ctx: Ctx, rule: str, funcs: List[Func], what: str):
             if h.qual not in seen:
                 seen.add(h.qual)
                 todo.append(h)
+    for h, bad, fine in persistent_findings(ctx.repo, todo):
+        ctx.ob(rule, h, "tables kept between calls by %s: %s" % (h.name, bad or fine or "none"), not bad,
+               "%s depends only on its arguments and on what it reads during the call: a table kept between calls must be "
+               "keyed by everything its entries are computed from" % what + ("" if not bad else " -- " + bad[0]), node=h.node)
+    # positive fixture: an identity-keyed module table, a class-level table of file contents and a memoised file reader must
+    # be found; a value-keyed memo and a write-only log must not
+    from .fixtures import check_fixture, fixture_repo
+    check_fixture(ctx, rule, "persistent.py",
+                  lambda repo: sum(1 for _h, b_, _f in persistent_findings(repo, list(repo.funcs.values())) if b_), expect_exact=3)
+
+
+def persistent_findings(repo: Repo, todo: List[Func]):
+    """[(function, reasons it keeps state that its key does not determine, tables that are fine)]"""
+    from .effects import Effects
+    E = Effects(repo)
+    out_ = []
     for h in todo:
         mod = h.module.node
         mod_mut = {t.id for st in mod.body if isinstance(st, (ast.Assign, ast.AnnAssign)) and getattr(st, "value", None) is not None
@@ -435,6 +449,5 @@ def persistent_state(ctx: Ctx, rule: str, funcs: List[Func], what: str):
                     bad.append("@%s on a function whose result depends on more than its arguments (file contents / object state)" % t)
                 else:
                     fine.append("@%s on a function of its arguments" % t)
-        ctx.ob(rule, h, "tables kept between calls by %s: %s" % (h.name, bad or fine or "none"), not bad,
-               "%s depends only on its arguments and on what it reads during the call: a table kept between calls must be "
-               "keyed by everything its entries are computed from" % what + ("" if not bad else " -- " + bad[0]), node=h.node)
+        out_.append((h, bad, fine))
+    return out_
